@@ -793,8 +793,11 @@ func (m *MsgBridgeCall) validateBasic() (err error) {
 	if err = ValidateExternalAddr(m.ChainName, m.To); err != nil {
 		return sdkerrors.ErrInvalidAddress.Wrapf("invalid to address: %s", err)
 	}
-	if m.Value.Sign() != 0 {
+	if m.Value.IsNil() || !m.Value.IsZero() {
 		return sdkerrors.ErrInvalidRequest.Wrap("value must be zero")
+	}
+	if m.Coins.IsAnyNil() {
+		return sdkerrors.ErrInvalidCoins.Wrap("nil coin amount")
 	}
 	if err = m.Coins.Validate(); err != nil {
 		return sdkerrors.ErrInvalidCoins.Wrap(err.Error())
